@@ -9,11 +9,14 @@ from pathlib import Path
 from .common import HEADER, Unsupported, find_function, write_if_changed
 
 
+_ELEMENTS = "elements"
+
+
 def nat_expr(e: ast.expr) -> str:
     if isinstance(e, ast.Constant) and isinstance(e.value, int) and e.value >= 0:
         return str(e.value)
     if (isinstance(e, ast.Call) and isinstance(e.func, ast.Name) and e.func.id == "len"
-            and len(e.args) == 1 and isinstance(e.args[0], ast.Name) and e.args[0].id == "elements"):
+            and len(e.args) == 1 and isinstance(e.args[0], ast.Name) and e.args[0].id == _ELEMENTS):
         return "n"
     if isinstance(e, ast.BinOp):
         l, r = nat_expr(e.left), nat_expr(e.right)
@@ -28,18 +31,43 @@ def nat_expr(e: ast.expr) -> str:
     raise Unsupported(f"iteration cap expression {ast.dump(e)}")
 
 
+def _names_len_arg(fn: ast.FunctionDef) -> str:
+    """the parameter holding the element list (second positional parameter)"""
+    pos = [a.arg for a in fn.args.args]
+    if len(pos) < 2:
+        raise Unsupported("_sort_dependencies no longer takes (available, elements)")
+    return pos[1]
+
+
 def generate(repo: Path, outdir: Path) -> bool:
     src = repo / "src" / "mxlpy" / "model.py"
     fn = find_function(ast.parse(src.read_text()), "_sort_dependencies")
+    global _ELEMENTS
+    _ELEMENTS = _names_len_arg(fn)
+    # the failure branch: `if <counter> > <cap>: … raise CircularDependencyError(…)` — the locals are found by this USE,
+    # so renaming them does not disturb the translation
+    guards = []
+    for n in ast.walk(fn):
+        if (isinstance(n, ast.If) and isinstance(n.test, ast.Compare) and len(n.test.ops) == 1
+                and isinstance(n.test.left, ast.Name) and isinstance(n.test.comparators[0], ast.Name)
+                and any(isinstance(r, ast.Raise) and "CircularDependencyError" in ast.unparse(r) for r in ast.walk(n))):
+            guards.append(n.test)
+    if len(guards) != 1:
+        raise Unsupported(f"expected exactly one `if <counter> > <cap>` guarding CircularDependencyError, found {len(guards)}")
+    if not isinstance(guards[0].ops[0], ast.Gt):
+        raise Unsupported(f"the cap test is no longer `counter > cap`: {ast.unparse(guards[0])}")
+    counter, cap = guards[0].left.id, guards[0].comparators[0].id
+    incs = [n for n in ast.walk(fn) if isinstance(n, ast.AugAssign) and isinstance(n.target, ast.Name) and n.target.id == counter]
+    if not (len(incs) == 1 and isinstance(incs[0].op, ast.Add) and isinstance(incs[0].value, ast.Constant) and incs[0].value.value == 1):
+        raise Unsupported("the iteration counter is no longer incremented by exactly 1 per loop iteration")
+    inits = [n for n in ast.walk(fn) if isinstance(n, ast.Assign) and len(n.targets) == 1
+             and isinstance(n.targets[0], ast.Name) and n.targets[0].id == counter]
+    if not (len(inits) == 1 and isinstance(inits[0].value, ast.Constant) and inits[0].value.value == 0):
+        raise Unsupported("the iteration counter no longer starts at 0")
     caps = [n for n in ast.walk(fn) if isinstance(n, ast.Assign) and len(n.targets) == 1
-            and isinstance(n.targets[0], ast.Name) and n.targets[0].id == "max_iterations"]
+            and isinstance(n.targets[0], ast.Name) and n.targets[0].id == cap]
     if len(caps) != 1:
-        raise Unsupported(f"expected exactly one assignment to max_iterations, found {len(caps)}")
-    # the comparison that trips the cap must still be `i > max_iterations`
-    cmps = [n for n in ast.walk(fn) if isinstance(n, ast.Compare) and isinstance(n.left, ast.Name) and n.left.id == "i"]
-    if not (len(cmps) == 1 and isinstance(cmps[0].ops[0], ast.Gt) and isinstance(cmps[0].comparators[0], ast.Name)
-            and cmps[0].comparators[0].id == "max_iterations"):
-        raise Unsupported("the cap test is no longer `i > max_iterations`")
+        raise Unsupported(f"expected exactly one assignment to the cap, found {len(caps)}")
     text = (HEADER.format(src="src/mxlpy/model.py::_sort_dependencies", tr="c02.py")
             + "namespace Mxl.Generated.C02\n\n"
             + f"/-- `max_iterations = {ast.unparse(caps[0].value)}` -/\n"
